@@ -11,12 +11,6 @@ model, and an independent oracle re-derives each link delay from the logged fram
 namespace Statime.C14
 open Statime
 
-theorem orOv_ok {α β : Type} (x : Option α) (f : α → R β) (r : β) (h : orOv x f = .ok r) :
-    ∃ a, x = some a ∧ f a = .ok r := by
-  cases x with
-  | none => simp [orOv] at h
-  | some a => exact ⟨a, rfl, h⟩
-
 /-! ### the link delay is the formula of the stored exchange -/
 
 /-- **Exactness.** When `extract_measurement` consumes a complete peer exchange it hands the filter
@@ -31,35 +25,22 @@ theorem extract_peer (p p' : Port) (id : Nat) (resp : PortId) (t1 t2 t3 t4 : Nat
       ((p.st = .faulty ∧ p'.st = .listening ∧ o = [.demobilize]) ∨ (p.st ≠ .faulty ∧ p'.st = p.st ∧ o = [])) := by
   unfold Port.extract at h
   rw [hpeer] at h
-  simp only [bind, Except.bind] at h
-  unfold Spec.peerDelay
-  cases h1 : timeSub t4 t1 with
-  | none => simp [h1, liftOv] at h
-  | some a =>
-    simp only [h1, liftOv] at h
-    cases h2 : timeSub t3 t2 with
-    | none => simp [h2] at h
-    | some b =>
-      simp only [h2] at h
-      cases h3 : durSub a b with
-      | none => simp [h3] at h
-      | some d =>
-        simp only [h3] at h
-        cases h4 : durHalf d with
-        | none => simp [h4] at h
-        | some half =>
-          simp only [h4] at h
-          refine ⟨half, by rw [Option.bind_some, Option.bind_some, h3, Option.bind_some, h4], ?_⟩
-          by_cases hf : p.st = .faulty
-          · simp only [hf, if_true, Port.setState, Except.ok.injEq, Prod.mk.injEq] at h
-            obtain ⟨e1, e2, e3⟩ := h
-            subst e1
-            refine ⟨e2.symm, rfl, Or.inl ⟨hf, rfl, ?_⟩⟩
-            rw [← e3]; simp [PState.isSlave]
-          · simp only [hf, if_false, Except.ok.injEq, Prod.mk.injEq] at h
-            obtain ⟨e1, e2, e3⟩ := h
-            subst e1
-            exact ⟨e2.symm, rfl, Or.inr ⟨hf, rfl, e3.symm⟩⟩
+  simp only at h
+  obtain ⟨mm, h1, h2⟩ := orOv_ok _ _ _ h
+  obtain ⟨v, hv, hm⟩ := peerMeasurement_spec _ _ _ _ _ h1
+  refine ⟨v, hv, ?_⟩
+  by_cases hf : p.st = .faulty
+  · rw [if_pos hf] at h2
+    simp only [Port.setState, Except.ok.injEq, Prod.mk.injEq] at h2
+    obtain ⟨e1, e2, e3⟩ := h2
+    subst e1
+    refine ⟨by rw [← e2, hm], rfl, Or.inl ⟨hf, rfl, ?_⟩⟩
+    rw [← e3]; simp [PState.isSlave, hf]
+  · rw [if_neg hf] at h2
+    simp only [Except.ok.injEq, Prod.mk.injEq] at h2
+    obtain ⟨e1, e2, e3⟩ := h2
+    subst e1
+    exact ⟨by rw [← e2, hm], rfl, Or.inr ⟨hf, rfl, e3.symm⟩⟩
 
 /-! ### more than one responder ⇒ Faulty, the later response is not used -/
 
@@ -161,7 +142,7 @@ theorem faulty_not_in_ebest (p : Port) (lb : Option Best) (hf : p.st = .faulty) 
 theorem faulty_bmca_stays (p : Port) (r : Recommended) (d : DefaultDS) (hf : p.st = .faulty) (hm : p.cfg.masterOnly = false) :
     p.setRecommendedPortState r d = .ok (p, [], none) := by
   unfold Port.setRecommendedPortState
-  cases r <;> simp [hf, hm]
+  cases r <;> simp [hf, hm, portMove, Recommended.isS1]
 
 /-- the announce receipt timeout leaves a Faulty port Faulty (since the `fix:` commit; before it the
 port was forced to Master — known_findings.json) -/
